@@ -818,6 +818,74 @@ example : (runVote ⟨.confidence, none, 1⟩ [voterOf .permit 1 1, voterOf .oth
     = (runVote ⟨.confidence, none, 1⟩ [voterOf .permit 1 1, voterOf .block 1 1]).decision := by decide +kernel
 
 
+/-! ### The collection loop, and every point at which an answer can fail (round 7) -/
+
+/-- The collection loop of `run_vote` as written - per member `try: express → _protein_to_vote (action type,
+    confidence, reasoning text) → votes.append → votes_cast += 1`, `except Exception: votes.append(ABSTAIN)` - IS the
+    model's `collect` / `afterVote` on the electorate the protocol abstracts the answers to: every theorem about
+    `runVote` / `stepOp` speaks about the loop. -/
+theorem c06_collection_loop_is_the_model (c : List Member) (as : List Answer) (h : as.length = c.length) :
+    collectLoop c as = (collect (electorate c (fun i => answerBehaviour (as.getD i .raised))),
+                        afterVote c (fun i => answerBehaviour (as.getD i .raised))) := by
+  apply collectLoop_refines _ c as 0 h
+  intro j hj
+  simp [List.getD, List.getElem?_eq_getElem hj]
+
+/-- Exactly one ballot per colony member, wherever in the per-voter step the member's answer fails: `express`
+    raising, an answer without `action_type` / `payload`, a confidence that cannot be read, a payload that cannot be
+    rendered into the reasoning text - each gives the one zero-confidence ABSTAIN carrying the bare profile weight and
+    leaves `votes_cast` alone; an answer that fails nowhere gives its one vote (weight × reliability) and counts as
+    cast.  Nothing is appended before the last step that can fail. -/
+theorem c06_one_ballot_per_member_wherever_the_answer_fails (c : List Member) (as : List Answer)
+    (h : as.length = c.length) :
+    (collectLoop c as).1.length = c.length ∧
+    ∀ (i : Nat) (m : Member) (a : Answer), c[i]? = some m → as[i]? = some a →
+      (a.faultPoint.isSome → (collectLoop c as).1[i]? = some (⟨.abstain, 0, m.weight⟩ : Vote) ∧ (collectLoop c as).2[i]? = some m) ∧
+      (a.faultPoint = none → ∃ v, proteinToVote m a = some v ∧ v.weight = m.weight * m.rel ∧
+        (collectLoop c as).1[i]? = some v ∧
+        (collectLoop c as).2[i]? = some (⟨m.name, m.weight, m.rel, m.votesCast + 1, m.correct⟩ : Member)) := by
+  refine ⟨by rw [collectLoop_fst, collect, List.length_map, answerVoters_length c as h], ?_⟩
+  intro i m a hm ha
+  obtain ⟨h1, h2⟩ := collectLoop_getElem? c as i m a hm ha
+  have hf := fault_iff m a
+  constructor
+  · intro hfp
+    rw [hfp] at hf
+    have hnone : proteinToVote m a = none := by simpa using hf
+    rw [hnone] at h1 h2
+    exact ⟨by simpa using h1, by simpa using h2⟩
+  · intro hfp
+    rw [hfp] at hf
+    cases hp : proteinToVote m a with
+    | none => rw [hp] at hf; simp at hf
+    | some v =>
+      rw [hp] at h1 h2
+      refine ⟨v, rfl, ?_, by simpa using h1, by simpa using h2⟩
+      cases a with
+      | raised => simp [proteinToVote] at hp
+      | unusable => simp [proteinToVote] at hp
+      | protein s p => cases p <;> simp [proteinToVote] at hp <;> rw [← hp]
+
+/-- Failed voters never count as support, whichever step failed: a colony all of whose answers fail somewhere is
+    never reported reached / PERMIT, reports no permit vote, and one ballot per member (non-negative threshold). -/
+theorem c06_failed_answers_are_no_support (cfg : Cfg) (hn : NonNegThreshold cfg) (c : List Member) (as : List Answer)
+    (h : as.length = c.length) (hall : ∀ a ∈ as, a.faultPoint.isSome) :
+    (aggregate cfg c.length (collectLoop c as).1).reached = false ∧
+    (aggregate cfg c.length (collectLoop c as).1).decision ≠ .permit ∧
+    (aggregate cfg c.length (collectLoop c as).1).total = c.length := by
+  have hrun : aggregate cfg c.length (collectLoop c as).1 = runVote cfg (answerVoters c as) := by
+    rw [collectLoop_fst, runVote, answerVoters_length c as h]
+  rw [hrun]
+  obtain ⟨h1, h2⟩ := c06_no_permit_without_permit_vote cfg _ hn (answerVoters_no_permit c as hall)
+  exact ⟨h1, h2, by rw [(c06_counts_equal_ballots cfg _).2.1, answerVoters_length c as h]⟩
+
+/-- a PERMIT answer with a confidence of ¾ in a payload that cannot be rendered, next to a plain PERMIT and a BLOCK:
+    three ballots, the middle one the failure ABSTAIN with the bare weight 2 (not 2 × ½), `votes_cast` untouched -/
+example : collectLoop [⟨[1], 1, 1, 0, 0⟩, ⟨[2], 2, 1/2, 5, 0⟩, ⟨[3], 1, 1, 0, 0⟩]
+    [.protein permitCps .notDict, .protein permitCps (.unrenderable true), .protein blockCps (.confNumeric (1/2))]
+    = ([⟨.permit, 1, 1⟩, ⟨.abstain, 0, 2⟩, ⟨.block, 1/2, 1⟩],
+       [⟨[1], 1, 1, 1, 0⟩, ⟨[2], 2, 1/2, 5, 0⟩, ⟨[3], 1, 1, 1, 0⟩]) := by decide +kernel
+
 /-! ### Decision tables evaluated from the real code on every run, reproduced by the model in the kernel
 
 `Operon.Gen.QuorumTables` is regenerated on every run by EVALUATING operon_ai/topology/quorum.py through its public
